@@ -37,19 +37,19 @@ claim("C15",
       "specification's post-state and make every thread's later reads equal the specification's. One step covers histories of "
       "any length, every operation-level interleaving and thread-id reuse. Cross-checked by bounded sequences from the initial "
       "state (3 ops quick / 4 thorough, 2 threads, id reuse) and coercion obligations per key. Counterexamples are replayed with "
-      "real threads on the unmodified module-level SQLLineageConfig.",
+      "real threads on the unmodified module-level SQLLineageConfig, every thread reading every key under the witness environment and under alternative environment values, pending threads entering their scope first.",
       TRUST + "; single dict/set operations atomic under the GIL; ids of live threads distinct; behaviour of a thread between its "
       "override call and scope entry other than entering is unspecified. Two defects found by this check were repaired in /repo "
       "(fix: commit, see known_findings.json).",
       "DESIGN.md section 4 (C15)")
 
 claim("C17",
-      "The real SQLLineageApp.__call__ and its routes run on a symbolic request path (k<=3 quick / k<=4 + seeded k=5 thorough "
-      "segments of 0..3 chars over {. q z _}, relative / absolute / double-slash spelling, symbolic root name); pathlib, os.path, "
+      "The real SQLLineageApp.__call__ and its routes run on a symbolic request path (k<=4 quick, + seeded k=5 thorough "
+      "segments of 0..3 chars over {. q z _}, relative / absolute / double-slash spelling, symbolic root name) and on requests carrying BOTH path parameters (d and f, 2+2 segments quick, 2+3 / 3+2 thorough, either key order); pathlib, os.path, "
       "open and json are the LxPath model (self-tested against the real modules on 1246 concrete paths per run) in a worst-case "
       "environment; z3 decides for ALL such paths that every path handed to open()/iterdir() lies, after resolving '.' and '..', "
       "inside the static folder (GET) or the root (POST). Every path's witness is replayed on the unmodified app with real pathlib "
-      "on a scratch tree with markers outside the root, observing both the response body and the real open/scandir audit events.",
+      "on a scratch tree with markers outside the root, observing the response body (markers, the directory a 200 answer of /directory names) and the real open/scandir audit events.",
       TRUST + "; POSIX, no symlinks; existence answers are not counted as disclosure; LineageRunner behind /lineage is an inert stub. "
       "The string-prefix defect found by this check was repaired in /repo (fix: commit, see known_findings.json).",
       "DESIGN.md section 4 (C17)")
@@ -80,25 +80,25 @@ claim("C01",
       "Per corpus statement x dialect the real LineageRunner runs on the symbolised parse tree with table, schema, alias, derived-alias "
       "and CTE names FREE and its source/target tables are compared with a reference semantics (SQL scoping on a typed AST) evaluated "
       "on the same symbolic names; z3 decides per feasible path (an equivalence class of namings) that they are equal, so statement-local "
-      "names never surface as tables unless they coincide with one, CTE shadowing included. Bounded-exhaustive over kind x 21 FROM shapes "
+      "names never surface as tables unless they coincide with one, CTE shadowing included; plus 31 dialect-specific statement kinds with hand-written expectations (COPY, SELECT INTO, INSERT OVERWRITE [DIRECTORY], file sources, LIKE/CLONE, EXCHANGE/SWAP PARTITION, recursive CTEs, no-data kinds). Bounded-exhaustive over kind x 28 FROM shapes "
       "x query forms x nesting <=2 (thorough: seeded depth 4, 3-char and mixed lengths, 6 more dialects). Witnesses replayed on the "
       "unmodified library (three-way: real / lifted / oracle).",
       TRUST + "; parser boundary stubbed; shapes outside the generator grammar are not seen; the oracle is a second implementation "
-      "(validated: it agrees with the real library on every template with pairwise-distinct names). Two shape defects found here "
-      "were repaired in /repo (mixed comma join; scalar subquery in select list / HAVING).",
+      "(validated: it agrees with the real library on every template with pairwise-distinct names). Three defects found here "
+      "were repaired in /repo (mixed comma join; scalar subquery in select list / HAVING; file paths lower-cased).",
       "DESIGN.md section 3 and 4 (C01)")
 claim("C02",
       "Same harness as C01 comparing (source column -> target column) pairs with the oracle's dataflow, in two families: table-ish names "
       "free (qualifier/alias/scope resolution under coincidences) and column names + column aliases free (naming by list/alias/own name, "
-      "resolution through derived tables and CTEs by name, positional mapping through set operations, 16 expression forms). "
+      "resolution through derived tables and CTEs by name, positional mapping through set operations, 16 expression forms); a third family frees the statement-local names first, a fourth double-quotes every base table (case kept, un-aliased quoted tables as qualifiers). "
       "Bounded as C01; <=5/7 free names per instance.",
-      TRUST + "; three open findings reported as KNOWN-FINDING (cross-scope alias capture, literal in first UNION branch, one-node paths "
-      "of CREATE TABLE); un-aliased expression display names are not compared; self-insert assumed away for pairs",
+      TRUST + "; two open findings reported as KNOWN-FINDING (cross-scope alias capture, literal in first UNION branch); three defects found here were repaired in /repo "
+      "(one-node paths of CREATE TABLE, quoted source column folded, default alias of a quoted table folded); un-aliased expression display names are not compared; self-insert assumed away for pairs",
       "DESIGN.md section 3 and 4 (C02)")
 
 claim("C14",
-      "Twin templates per corpus statement: analysed under default schema S (scoped override of the real SQLLineageConfig, or the stubbed "
-      "environment) versus the statement with every unqualified table written S.name; S and up to 4/6 other names are free, so S may equal "
+      "Twin templates per corpus statement: analysed under default schema S (scoped override of the real SQLLineageConfig, the stubbed "
+      "environment, the environment while ANOTHER key is overridden in scope, or a scoped override over a different environment value) versus the statement with every unqualified table written S.name; S and up to 4/6 other names are free, so S may equal "
       "a qualifier already present; z3 decides over all namings that tables, column pairs and exported node ids (both levels) are equal. "
       "The same twin runs under the legacy sqlparse analyzer (its table factory is separate code). Counterexamples replayed on the "
       "unmodified library with the real config mechanism.",
@@ -107,17 +107,17 @@ claim("C14",
 
 claim("C13",
       "The real LineageRunner with and without the dict-backed provider whose column lists are SYMBOLIC and whose knowledge of each table "
-      "is a free bit: 13 templates (SELECT * single/join/qualified/derived/CTE, unqualified column over joins incl. free schema+table names, "
-      "INSERT positions from target metadata, explicit list, union, CTAS, unknown tables) + a seeded share of the corpus under an unrelated "
+      "is a free bit: 17 templates (SELECT * single/join/qualified/derived/CTE, unqualified column over joins incl. free schema+table names, "
+      "INSERT positions from target metadata, explicit list with FREE listed names - permutation of / overlap with / longer or shorter than the known columns, over a union and a CTE -, CTAS, unknown tables) + a seeded share of the corpus under an unrelated "
       "provider; z3 decides over all column namings (overlap patterns are its case split) that table lineage is unchanged and the pairs equal "
       "the refinement contract. Witnesses replayed on the unmodified library with the concrete metadata dict.",
-      TRUST + "; parser boundary stubbed; SQLAlchemy provider only through the shared base-class path; four open findings reported as "
-      "KNOWN-FINDING (explicit list overridden, star over join with overlapping column, star over join with partial knowledge, star "
-      "through CTE)",
+      TRUST + "; parser boundary stubbed; SQLAlchemy provider only through the shared base-class path; three open findings reported as "
+      "KNOWN-FINDING (star over join with overlapping column, star over join with partial knowledge, star "
+      "through CTE); one defect found here was repaired in /repo (explicit column list merged with the target's metadata columns)",
       "DESIGN.md section 4 (C13)")
 
 claim("C04",
-      "The real LineageRunner on 2-4 statement scripts (12 chain shapes + 6 session-metadata scripts); the intermediate tables' names at "
+      "The real LineageRunner on 2-4 statement scripts (12 chain shapes + 10 session-metadata scripts incl. wildcard chains and a table defined twice); the intermediate tables' names at "
       "the write site and at the read site are INDEPENDENT free names and the column names are free, so 'reads what was written' and 'consumes "
       "what was produced' are solver case splits; expected = relational composition (roots-to-leaves reachability) of the per-statement oracle "
       "dataflows computed on the same symbolic names, table roles per C03's definition; with a provider, SELECT * / unqualified columns / "
@@ -126,7 +126,7 @@ claim("C04",
       "DESIGN.md section 4 (C04)")
 
 claim("C18",
-      "On every lifted result of the corpus statements, the C04 chain scripts and 4 path-owning dialect statements, at both export levels and "
+      "On every lifted result of the corpus statements, the C04 chain scripts, 5 role-overlap scripts (all table names free: the chain's intermediate table may also be read by a bare SELECT or created on its own) and 4 path-owning dialect statements, at both export levels and "
       "with names FREE: exported node ids pairwise distinct AS FORMULAS (two distinct nodes printing the same name is searched over all "
       "namings), every edge endpoint and parent reference is an exported id, exported nodes/edges correspond one to one to the graph's, the "
       "text summary lists each source/target/intermediate once in sorted order. The same checker function runs on the unmodified library's "
@@ -134,12 +134,12 @@ claim("C18",
       TRUST + "; graph read through runner._sql_holder; one open finding (duplicate ids for distinct nodes printing the same name) reported as KNOWN-FINDING",
       "DESIGN.md section 4 (C18)")
 claim("C06",
-      "On every lifted result of the corpus statements, the C04 chain scripts and 6 dialect-specific statements (paths, LATERAL VIEW, SELECT "
+      "On every lifted result of the corpus statements, the C04 chain scripts, 5 role-overlap scripts and 6 dialect-specific statements (paths, LATERAL VIEW, SELECT "
       "INTO) with names FREE: every reported path is a chain of direct lineage edges with >=1 hop from a column nothing feeds to a column of a "
       "written table; the last column's owner is target/intermediate; every resolved source column's table is source/intermediate and "
       "connected to the target's table in the table graph; every node retrievable by eq/hash; resolved columns have one owner. Same checker "
       "runs concretely on the unmodified library for every replayed witness.",
-      TRUST + "; self-insert namings assumed away; two open findings (one-node paths of CREATE TABLE, LATERAL VIEW alias) reported as KNOWN-FINDING",
+      TRUST + "; self-insert namings assumed away; one open finding (LATERAL VIEW alias) reported as KNOWN-FINDING; one defect found here was repaired in /repo (one-node paths of CREATE TABLE)",
       "DESIGN.md section 4 (C06)")
 
 claim("C09",
@@ -149,9 +149,9 @@ claim("C09",
       "dialects per statement and all 25 on /plain statements. Legacy leg: the placeholder text is parsed by the real sqlparse, its token tree "
       "symbolised the same way (lx/legacy.py) and the real SqlParseLineageAnalyzer's TABLE lineage compared with the sqlfluff analyzer's "
       "for all namings. Witnesses are replayed on the unmodified library under every dialect / analyzer involved.",
-      TRUST + "; seven dialect-shape findings reported as KNOWN-FINDING (exasol CREATE VIEW, clickhouse WHERE subquery, tsql view column list, "
-      "UPDATE FROM under tsql/sqlite, tsql MERGE, MERGE INSERT clause under athena/databricks/trino, CREATE TABLE column definitions, impala "
-      "CTAS unsupported; legacy analyzer: mixed comma join, HAVING subquery, derived table in a parenthesized join)",
+      TRUST + "; nine findings reported as KNOWN-FINDING (exasol CREATE VIEW, clickhouse WHERE subquery, tsql view column list, "
+      "UPDATE FROM under tsql/sqlite, tsql MERGE, MERGE INSERT clause under athena/databricks/trino; legacy analyzer: mixed comma join, HAVING subquery, derived table in a parenthesized join); "
+      "two defects found here were repaired in /repo (impala CTAS unsupported, CREATE TABLE column definitions differing per dialect)",
       "DESIGN.md section 4 (C09)")
 
 claim("C07",
@@ -159,7 +159,7 @@ claim("C07",
       "per occurrence (plus <=4 free lower-case names); z3 decides over all case assignments that tables and named-column pairs equal the "
       "plain run's. quote: twin templates with every table-ish identifier (or only the schema parts of 2/3-part names) quoted in the dialect's "
       "style vs unquoted, lower-case bodies free. layout: minimal rendering vs one noise-saturated rendering (newline + block comment with ';' "
-      "+ line comment at every blank). Counterexamples are rendered to two SQL texts and replayed on the unmodified library. NOT claimed: "
+      "+ line comment at every blank; statements with a scalar subquery nested in an expression, which the library re-analyses from its TEXT, always take part). Counterexamples are rendered to two SQL texts and replayed on the unmodified library. NOT claimed: "
       "quantification over WHERE whitespace/comments are inserted - positions change the parse and cannot be solver variables; extra "
       "trailing semicolons are C05's.",
       TRUST + "; tree shape assumed independent of letter case (re-checked per witness)",
@@ -171,7 +171,7 @@ claim("C11",
       "set.pop, itertools.product - follows the ranks), one harness instance per kind of set permuted (tables/subqueries, columns, rest) "
       "and, for small templates, all sets at once; names free as well. z3 decides over all rankings and namings that the canonical dump "
       "(sorted tables, column paths, both exports as sets) is the same. A counterexample (naming + ranking) is rendered to SQL and run on "
-      "the unmodified library in fresh processes under PYTHONHASHSEED 0..15 (64 thorough) and reported only if two seeds disagree. "
+      "the unmodified library in fresh processes under PYTHONHASHSEED 0..15 (0..31 thorough, every 8th passing path) and reported only if two seeds disagree. "
       "Accessor family: every ordered pair of the 7 accessors on one runner object vs a fresh runner.",
       TRUST + "; set iteration inside networkx/sqlfluff is not permuted (seed replay only); the list ORDER of the export and its edge "
       "numbering are not compared (they follow insertion order, which follows set order: observed to differ between seeds for every "
@@ -181,7 +181,7 @@ claim("C11",
 claim("C05",
       "REDUCED SCOPE. split kernel: the real helpers.split on a SYMBOLIC list of sqlparse pieces (empty/comment-only, ';'-only, statement "
       "with symbolic text; up to 5): exactly the statements, in order. assembly: the real LineageRunner on scripts of 2-4 statements "
-      "(10 kinds, ansi/postgres/tsql, table names free so later statements may read earlier targets) versus SQLLineageHolder.of over "
+      "(12 kinds incl. a wildcard reader and an unqualified column over a join, ansi/postgres/tsql, table names free so later statements may read earlier targets - metadata-free analysis must not learn from earlier statements) versus SQLLineageHolder.of over "
       "the same statements analysed one by one by fresh runners: equal tables and column pairs, statements() has n entries. tsql "
       "no-semicolon mode through split_tsql and the segment cache, incl. textually equal statements. NOT claimed: where sqlparse/"
       "sqlfluff place the cuts in TEXT (semicolons in literals/comments, ';;', newline-only batches) - regex lexers on concrete text; "
@@ -189,7 +189,7 @@ claim("C05",
       TRUST + "; per-statement holders read through runner._stmt_holders",
       "DESIGN.md section 4 (C05)")
 claim("C10",
-      "REDUCED SCOPE. monitor: the real runner and every accessor on 26 edge-case statements with free names - only SQLLineageException "
+      "REDUCED SCOPE. monitor: the real runner and every accessor on 36 edge-case statements (incl. file sources in writing statements, UPDATE ONLY) and the 31 dialect-specific statement kinds of C01, names free - only SQLLineageException "
       "subclasses may escape. silent: an unsupported statement (4 kinds) at SYMBOLIC position k of a 1-3 statement script, normal vs silent "
       "mode: exception / warning + result equals the script without it, for all names. empty-parse: a statement yielding no segment at "
       "position k. parse kernel: sqlfluff's Linter stubbed by a SYMBOLIC violations list and SYMBOLIC text over templating/formatting/"
@@ -203,8 +203,8 @@ claim("C12",
       "position k (unsupported or unparsable statement) or with the provider raising on its j-th lookup, then run B; names free (a table the "
       "history creates may be the table B reads): B equals B on a fresh provider and after every run, however it ended, the provider "
       "answers for the learned tables as a fresh one; default shared provider by leaving the argument unset; a complete run B nested "
-      "inside run A's j-th provider lookup (the only points where a run calls out) leaves both unchanged; frame check: no module-level "
-      "mutable object of sqllineage.* changes across a run. NOT claimed: real OS-thread interleavings (runs with their own providers "
+      "inside run A's j-th provider lookup (the only points where a run calls out) leaves both unchanged; frame audit: no module-level or class-level "
+      "mutable object of sqllineage.* changes across a run in any mode (with/without provider, tsql, T-SQL no-semicolon mode, failing run), repeated on the unmodified library in the replay worker. NOT claimed: real OS-thread interleavings (runs with their own providers "
       "share only SQLLineageConfig, which C15 covers, and import-time constants, which the frame check asserts).",
       TRUST + "; Dummy provider subclass with a fault/nesting counter in the harness",
       "DESIGN.md section 4 (C12)")
